@@ -30,8 +30,12 @@ import (
 var theWorld *World
 
 type concreteBuilder struct {
-	st      *State
-	nextReg int64
+	st        *State
+	w         *World
+	interp    map[string]*Term // values of uninterpreted spec functions at concrete arguments
+	calls     *[]concCall      // logged calls of interface models (post state)
+	nextIface int64
+	nextReg   int64
 }
 
 func (cb *concreteBuilder) newReg() *Term {
@@ -60,6 +64,22 @@ func (cb *concreteBuilder) build(ty *STy, j interface{}, reuse Value) (Value, bo
 	case TBool:
 		b, ok := j.(bool)
 		return VScalar{BoolConst(b), ty}, ok
+	case TIface:
+		// interface values: nil, a named package-level error value, a model of an interface
+		// parameter (stream / writer / message), or an opaque non-nil identity
+		if j == nil {
+			return VScalar{BVInt(0, 32), ty}, true
+		}
+		if m, ok := j.(map[string]interface{}); ok {
+			if _, isErr := m["text"]; isErr {
+				return VScalar{cb.errID(m), ty}, true
+			}
+			if kind, ok := m["model"].(string); ok {
+				return cb.buildModel(kind, m, ty, reuse)
+			}
+		}
+		cb.nextIface++
+		return VScalar{BVInt(0x10000000+cb.nextIface, 32), ty}, true
 	case TSlice:
 		m, ok := j.(map[string]interface{})
 		if !ok {
@@ -134,6 +154,38 @@ func (cb *concreteBuilder) build(ty *STy, j interface{}, reuse Value) (Value, bo
 			if !ok {
 				continue
 			}
+			if ft.K == TArray && ft.Elem.scalarSort() != nil {
+				// array field: its elements live in a ghost region of their own
+				am, _ := fj.(map[string]interface{})
+				elems, _ := am["slice"].([]interface{})
+				akey := fieldKey(ty.Named, i, "areg")
+				if _, ok := cb.st.heaps[akey]; !ok {
+					cb.st.heaps[akey] = ConstArr(ArrSort(RegSort, RegSort), BVInt(0, 32))
+				}
+				var areg *Term
+				if _, isReuse := reuse.(PObj); isReuse {
+					areg = Select(cb.st.heaps[akey], ref)
+				}
+				if areg == nil || !areg.IsConst() || areg.Val.Sign() == 0 {
+					areg = cb.newReg()
+					cb.st.heaps[akey] = Store(cb.st.heaps[akey], ref, areg)
+				}
+				ekey := heapKey(ft.Elem, "")
+				srt := ft.Elem.scalarSort()
+				h, ok := cb.st.heaps[ekey]
+				if !ok {
+					h = ConstArrOfArr(srt)
+				}
+				cb.st.heaps[ekey] = Store(h, areg, ConstArr(ArrSort(IdxSort, srt), BVInt(0, srt.W)))
+				for k, ej := range elems {
+					ev, ok := cb.build(ft.Elem, ej, nil)
+					if !ok {
+						return nil, false
+					}
+					storeElem(cb.st, ft.Elem, areg, BVInt(int64(k), 64), ev)
+				}
+				continue
+			}
 			if ft.K == TArray || ft.K == TOpaque || ft.K == TStruct || ft.K == TIface {
 				continue
 			}
@@ -159,6 +211,177 @@ func (cb *concreteBuilder) build(ty *STy, j interface{}, reuse Value) (Value, bo
 		return PObj{ref, ty}, true
 	}
 	return nil, false
+}
+
+type concCall struct {
+	seq  int
+	kind string
+	args []Value
+	rets []Value
+}
+
+func (cb *concreteBuilder) setInterp(fn string, val *Term, args ...*Term) {
+	if cb.interp == nil {
+		return
+	}
+	k := "sf." + fn
+	for _, a := range args {
+		k += "|" + a.Val.String()
+	}
+	cb.interp[k] = val
+}
+
+// errID: the identity of a dumped error value. Named package-level error values get the
+// identity the contracts use for that variable; anything else a fresh one. cause() is recorded.
+func (cb *concreteBuilder) errID(m map[string]interface{}) *Term {
+	named := func(n string) *Term {
+		if n == "" || cb.w == nil {
+			return nil
+		}
+		if strings.HasPrefix(n, "verif.") {
+			id := int64(0x30000001)
+			if n == "verif.injected2" {
+				id++
+			}
+			return BVInt(id, 32)
+		}
+		k := strings.LastIndex(n, ".")
+		for _, p := range cb.w.Pkgs {
+			if p.Pkg.Name() == n[:k] {
+				if g, ok := p.Members[n[k+1:]].(*ssa.Global); ok {
+					if v, ok := cb.w.symbolicGlobal(g, &STy{K: TIface}).(VScalar); ok {
+						return v.T
+					}
+				}
+			}
+		}
+		return nil
+	}
+	name, _ := m["err"].(string)
+	id := named(name)
+	if id == nil {
+		cb.nextIface++
+		id = BVInt(0x10000000+cb.nextIface, 32)
+	}
+	cname, _ := m["cause"].(string)
+	if c := named(cname); c != nil {
+		cb.setInterp("cause", c, id)
+		cb.setInterp("cause", c, c)
+	} else if name != "" {
+		cb.setInterp("cause", id, id)
+	}
+	return id
+}
+
+// buildModel: an interface parameter filled by one of the driver's models. The uninterpreted
+// functions / ghost state of the stream model (06_stream.spec) get their concrete values.
+func (cb *concreteBuilder) buildModel(kind string, m map[string]interface{}, ty *STy, reuse Value) (Value, bool) {
+	var id *Term
+	if rv, ok := reuse.(VScalar); ok && rv.T.IsConst() {
+		id = rv.T
+	} else {
+		cb.nextIface++
+		id = BVInt(0x20000000+cb.nextIface, 32)
+	}
+	bytesOf := func(j interface{}) ([]*Term, bool) {
+		mm, ok := j.(map[string]interface{})
+		if !ok {
+			return nil, false
+		}
+		l, ok := mm["slice"].([]interface{})
+		if !ok {
+			l, _ = mm["str"].([]interface{})
+		}
+		var out []*Term
+		for _, e := range l {
+			v, ok := jsonInt(e)
+			if !ok {
+				return nil, false
+			}
+			out = append(out, BVConst(v, 8))
+		}
+		return out, true
+	}
+	errOf := func(j interface{}) *Term {
+		if em, ok := j.(map[string]interface{}); ok {
+			return cb.errID(em)
+		}
+		return BVInt(0, 32)
+	}
+	i64 := func(n int) *Term { return BVInt(int64(n), 64) }
+	logCalls := func(callKind string, mk func(c map[string]interface{}, p Value) ([]Value, []Value)) {
+		cs, _ := m["calls"].([]interface{})
+		for _, cj := range cs {
+			c, _ := cj.(map[string]interface{})
+			if c == nil || cb.calls == nil {
+				continue
+			}
+			pv, ok := cb.build(&STy{K: TSlice, Elem: tyU8}, c["p"], nil)
+			if !ok {
+				continue
+			}
+			seq, _ := c["seq"].(float64)
+			args, rets := mk(c, pv)
+			*cb.calls = append(*cb.calls, concCall{int(seq), callKind, args, rets})
+		}
+	}
+	intOf := func(j interface{}, w int) *Term {
+		if v, ok := jsonInt(j); ok {
+			return BVConst(v, w)
+		}
+		return BVInt(0, w)
+	}
+	self := VScalar{id, ty}
+	switch kind {
+	case "reader":
+		data, ok := bytesOf(m["data"])
+		if !ok {
+			return nil, false
+		}
+		cb.setInterp("rdlen", i64(len(data)), id)
+		for i, b := range data {
+			cb.setInterp("rdbyte", b, id, i64(i))
+		}
+		cb.setInterp("rdfail", errOf(m["fail"]), id)
+		pos := intOf(m["pos"], 64)
+		h, ok := cb.st.heaps[ghostKey("rdpos")]
+		if !ok {
+			h = ConstArr(ArrSort(RegSort, IdxSort), BVInt(0, 64))
+		}
+		cb.st.heaps[ghostKey("rdpos")] = Store(h, id, pos)
+	case "writer":
+		logCalls("io.Writer.Write", func(c map[string]interface{}, p Value) ([]Value, []Value) {
+			return []Value{self, p, VScalar{intOf(c["off"], 64), &STy{K: TInt, W: 64, Signed: true}}}, []Value{VScalar{intOf(c["n"], 64), tyInt}, VScalar{errOf(c["err"]), &STy{K: TIface}}}
+		})
+	case "msg", "vmsg":
+		body, ok := bytesOf(m["body"])
+		if !ok {
+			return nil, false
+		}
+		merr := errOf(m["merr"])
+		cb.setInterp("pbErr", merr, id)
+		cb.setInterp("pbLen", i64(len(body)), id)
+		for i, b := range body {
+			cb.setInterp("pbByte", b, id, i64(i))
+		}
+		cb.setInterp("isVersionedMessage", BoolConst(kind == "vmsg"), id)
+		if kind == "vmsg" {
+			ver, ok := bytesOf(m["ver"])
+			if !ok {
+				return nil, false
+			}
+			cb.setInterp("verLen", i64(len(ver)), id)
+			for i, b := range ver {
+				cb.setInterp("verByte", b, id, i64(i))
+			}
+		}
+		logCalls("github.com/golang/protobuf/proto.Unmarshal", func(c map[string]interface{}, p Value) ([]Value, []Value) {
+			return []Value{p, self}, []Value{VScalar{errOf(c["err"]), &STy{K: TIface}}}
+		})
+	default:
+		return nil, false
+	}
+	return self, true
 }
 
 type groundEval struct {
@@ -197,6 +420,20 @@ func (g *groundEval) eval(t *Term) *Term {
 			}
 			if !b.S.IsBV() {
 				return t
+			}
+			if b.Key == "iface" {
+				// interface identities: only the models of this record are known
+				for k := range g.w.concreteInterp {
+					if strings.HasPrefix(k, "sf.pbLen|") {
+						if v, ok := new(big.Int).SetString(strings.TrimPrefix(k, "sf.pbLen|"), 10); ok {
+							doms[i] = append(doms[i], BVConst(v, 32))
+						}
+					}
+				}
+				if len(doms[i]) == 0 {
+					return t
+				}
+				continue
 			}
 			for v := int64(-1); v <= d; v++ {
 				doms[i] = append(doms[i], BVInt(v, b.S.W))
@@ -250,6 +487,24 @@ func (g *groundEval) eval(t *Term) *Term {
 			args[i] = g.eval(a)
 		}
 		nt := App(t.Name, t.S, args...)
+		if g.w.concreteInterp != nil {
+			k := t.Name
+			allConst := true
+			for _, a := range args {
+				a = unmark(a)
+				if !a.IsConst() {
+					allConst = false
+					break
+				}
+				k += "|" + a.Val.String()
+			}
+			if allConst {
+				if v, ok := g.w.concreteInterp[k]; ok {
+					r = v
+					break
+				}
+			}
+		}
 		if strings.HasPrefix(t.Name, "sf.") {
 			name := strings.TrimPrefix(t.Name, "sf.")
 			if fn := g.w.SpecFns[name]; fn != nil && fn.Body != nil {
@@ -334,6 +589,19 @@ func goTypeString(t types.Type, pkg *types.Package) string {
 
 // driverSource generates the replay driver of a package.
 func (w *World) driverSource(pkg *ssa.Package) string {
+	extraImports := map[string]string{}
+	std := map[string]bool{"bytes": true, "encoding/json": true, "errors": true, "fmt": true, "io": true, "math/rand": true, "os": true, "reflect": true, "sort": true, "strconv": true, "testing": true, "unsafe": true}
+	typeStr := func(t types.Type) string {
+		return types.TypeString(t, func(p *types.Package) string {
+			if p == pkg.Pkg {
+				return ""
+			}
+			if !std[p.Path()] {
+				extraImports[p.Name()] = p.Path()
+			}
+			return p.Name()
+		})
+	}
 	var rows []string
 	var keys []string
 	for k := range w.FuncSpecs {
@@ -384,14 +652,47 @@ func (w *World) driverSource(pkg *ssa.Package) string {
 				if p.Name() == "" || p.Name() == "_" {
 					continue
 				}
-				decl = append(decl, fmt.Sprintf("%s := verifA[%d].Interface().(%s); _ = %s", p.Name(), i, goTypeString(p.Type(), pkg.Pkg), p.Name()))
+				decl = append(decl, fmt.Sprintf("%s := verifA[%d].Interface().(%s); _ = %s", p.Name(), i, typeStr(p.Type()), p.Name()))
 			}
-			gen = ", Gen: func(verifA []reflect.Value, r *rand.Rand) { " + strings.Join(decl, "; ") + "; " + strings.Join(body, "; ") + " }"
+			// the random source is "rnd" (and "r" too unless a parameter has that name)
+			hasR := false
+			for _, p := range fn.Params {
+				if p.Name() == "r" {
+					hasR = true
+				}
+			}
+			pre := "rnd := verifR; _ = rnd; "
+			if !hasR {
+				pre += "r := verifR; _ = r; "
+			}
+			gen = ", Gen: func(verifA []reflect.Value, verifR *rand.Rand) { " + pre + strings.Join(decl, "; ") + "; " + strings.Join(body, "; ") + " }"
 		}
 		rows = append(rows, fmt.Sprintf("\t%q: {F: %s%s},", fs.Name, expr, gen))
 	}
 	src := strings.Replace(driverTemplate, "PKGNAME", pkg.Pkg.Name(), 1)
-	return strings.Replace(src, "FUNCTABLE", strings.Join(rows, "\n"), 1)
+	// names of package-level error values (identity is what contracts talk about)
+	errRows := []string{`"io.EOF": io.EOF,`, `"io.ErrUnexpectedEOF": io.ErrUnexpectedEOF,`, `"io.ErrShortWrite": io.ErrShortWrite,`}
+	var mnames []string
+	for n := range pkg.Members {
+		mnames = append(mnames, n)
+	}
+	sort.Strings(mnames)
+	errT := types.Universe.Lookup("error").Type()
+	for _, n := range mnames {
+		if g, ok := pkg.Members[n].(*ssa.Global); ok && n != "init$guard" {
+			if types.Identical(g.Type().(*types.Pointer).Elem(), errT) {
+				errRows = append(errRows, fmt.Sprintf("%q: %s,", pkg.Pkg.Name()+"."+n, n))
+			}
+		}
+	}
+	src = strings.Replace(src, "FUNCTABLE", strings.Join(rows, "\n"), 1)
+	var imps []string
+	for n, pth := range extraImports {
+		imps = append(imps, fmt.Sprintf("\t%s %q", n, pth))
+	}
+	sort.Strings(imps)
+	src = strings.Replace(src, "\t\"bytes\"\n", strings.Join(imps, "\n")+"\n\t\"bytes\"\n", 1)
+	return src + "\nfunc init() {\n\tverifErrNames = map[string]error{\n\t\t" + strings.Join(errRows, "\n\t\t") + "\n\t}\n}\n"
 }
 
 // modelInputs turns the solver's model into concrete argument lists (when small enough).
@@ -581,7 +882,10 @@ func (w *World) checkRecord(fi *FuncInfo, fs *FuncSpec, rec map[string]interface
 		return &State{cells: map[*ssa.Alloc]Value{}, regs: map[ssa.Value]Value{}, heaps: map[string]*Term{}, globals: map[*ssa.Global]Value{}}
 	}
 	old := mk()
-	cb := &concreteBuilder{st: old}
+	interp := map[string]*Term{}
+	cb := &concreteBuilder{st: old, w: w, interp: interp}
+	w.concreteInterp = interp
+	defer func() { w.concreteInterp = nil }()
 	var args []Value
 	for i, p := range fn.Params {
 		v, ok := cb.build(tyFromGo(p.Type()), ins[i], nil)
@@ -618,13 +922,17 @@ func (w *World) checkRecord(fi *FuncInfo, fs *FuncSpec, rec map[string]interface
 	for k, v := range old.heaps {
 		cur.heaps[k] = v
 	}
-	cb2 := &concreteBuilder{st: cur, nextReg: cb.nextReg + 1}
+	var calls []concCall
+	cb2 := &concreteBuilder{st: cur, w: w, interp: interp, calls: &calls, nextReg: cb.nextReg + 1, nextIface: cb.nextIface + 100}
 	cur.alloc = old.alloc
 	frameOK := true
 	for i, p := range fn.Params {
 		if i < len(posts) {
 			if _, ok := cb2.build(tyFromGo(p.Type()), posts[i], args[i]); !ok {
 				return "", true
+			}
+			if mm, ok := ins[i].(map[string]interface{}); ok && mm["model"] != nil {
+				continue // the state of an interface model (position, call log) is not program memory
 			}
 			a, _ := json.Marshal(stripCap(ins[i]))
 			b, _ := json.Marshal(stripCap(posts[i]))
@@ -642,11 +950,28 @@ func (w *World) checkRecord(fi *FuncInfo, fs *FuncSpec, rec map[string]interface
 	if assignsNothing && !frameOK {
 		return "assigns nothing: an argument was modified by the call", true
 	}
+	// the call log of the interface models, in call order
+	sort.Slice(calls, func(i, j int) bool { return calls[i].seq < calls[j].seq })
+	for _, c := range calls {
+		cur.effects = append(cur.effects, Effect{Kind: c.kind, Args: c.args, Rets: c.rets, Heap: cur.heaps})
+	}
 	outs, _ := rec["out"].([]interface{})
 	var results []Value
 	res := fn.Signature.Results()
 	for j := 0; j < res.Len() && j < len(outs); j++ {
-		v, ok := cb2.build(tyFromGo(res.At(j).Type()), outs[j], nil)
+		rty := tyFromGo(res.At(j).Type())
+		// an interface result holding a pointer to a struct of the module (dyntype clause)
+		if dm, ok := outs[j].(map[string]interface{}); ok && rty.K == TIface && dm["dyn"] != nil && j < len(fs.Results) {
+			if io, ok := x.applyDynType(fi, fs.Results[j], VScalar{BVInt(1, 32), rty}).(VIfaceObj); ok {
+				pv, ok := cb2.build(io.Obj.Ty, dm["dyn"], nil)
+				if !ok {
+					return "", true
+				}
+				results = append(results, VIfaceObj{Obj: pv.(PObj), Ty: rty})
+				continue
+			}
+		}
+		v, ok := cb2.build(rty, outs[j], nil)
 		if !ok {
 			return "", true
 		}
@@ -659,9 +984,32 @@ func (w *World) checkRecord(fi *FuncInfo, fs *FuncSpec, rec map[string]interface
 			continue
 		}
 		n++
+		ge.budget = 400000
 		t, err := post.EvalBool(c.E)
 		if err != nil {
+			if os.Getenv("VERIF_DEBUG_CLAUSES") != "" {
+				fmt.Fprintf(os.Stderr, "clause %d: eval error %v\n", n, err)
+			}
 			continue
+		}
+		if os.Getenv("VERIF_DEBUG_CLAUSES") != "" {
+			r := ge.eval(t)
+			s := "undetermined"
+			if r == True {
+				s = "true"
+			} else if r == False {
+				s = "false"
+			}
+			fmt.Fprintf(os.Stderr, "clause %d: %s\n", n, s)
+			if s == "undetermined" && os.Getenv("VERIF_DEBUG_CLAUSES") == "2" {
+				txt := r.String()
+				if len(txt) > 600 {
+					txt = txt[:600]
+				}
+				fmt.Fprintf(os.Stderr, "   residual: %s\n", txt)
+				ib, _ := json.Marshal(rec["in"])
+				fmt.Fprintf(os.Stderr, "   in: %.700s\n   out: %v\n", ib, rec["out"])
+			}
 		}
 		if ge.eval(t) == False {
 			return fmt.Sprintf("ensures#%d: %s", n, c.Text), true
